@@ -35,7 +35,7 @@ def configs(tier):
                     if tier == 'quick' and route == 'entry' and safe:
                         continue
                     out.append(dict(kind='const', spec=sp, V=V, safe=safe, route=route, grid='u5',
-                                    bound=2 if tier == 'quick' else 3))
+                                    bound=3 if (tier == 'thorough' or (route == 'sim' and not safe)) else 2))
     # growth and division
     grids = ['u5', 'u9e'] if tier == 'quick' else ['u5', 'u4h', 'u9e', 'u9']
     for sp in growth_models():
@@ -44,7 +44,7 @@ def configs(tier):
                 for t0 in (0.0, 0.5):
                     if t0 and (tier == 'quick' and g != 'u5'):
                         continue
-                    out.append(dict(kind='growth', spec=sp, grid=g, vol=vol, safe=False, t0=t0, bound=1 if tier == 'quick' else 2))
+                    out.append(dict(kind='growth', spec=sp, grid=g, vol=vol, safe=False, t0=t0, bound=2))
     return out
 
 
